@@ -72,6 +72,15 @@ Theorem C20_rejected_changes_nothing : forall sp pt st o,
 Proof. exact step_rejected. Qed.
 Print Assumptions C20_rejected_changes_nothing.
 
+(* the same for whole histories: the (kind, location) table after ops ++ [o] is the table after
+   ops updated as o asks if o is accepted there, and unchanged otherwise *)
+Theorem C20_history_lookup : forall c ops o id',
+  let sp := c_space c in let pt := c_portrayal c in
+  lookup id' (exec sp pt (init_state c) (ops ++ [o]))
+  = lookup_after sp (exec sp pt (init_state c) ops) o id'.
+Proof. exact history_lookup. Qed.
+Print Assumptions C20_history_lookup.
+
 (* the agent marker of hex cell (x, y) is centred on hexagon (col x, row y) of the drawn mesh:
    ((y - 1) mod 2) of draw_hex_grid and (row % 2 == 0) of _get_hexmesh are the same shift, for all
    integers (Python's floor modulo = Z.modulo) *)
